@@ -209,7 +209,13 @@ def odp_bytes(doc, more_pages=()):
                    f'<office:presentation><draw:page draw:name="page1">{odp_bytes_frames(doc)}</draw:page></office:presentation>')
 
 
-def odp_bytes_frames(doc):
+def odp_bytes_frames(doc, positions="ascending", empty_frame=False):
+    if positions != "ascending" or empty_frame:
+        at = lambda bi: "" if positions == "none" else ('svg:x="1cm" svg:y="2cm"' if positions == "equal" else f'svg:x="1cm" svg:y="{bi + 1}cm"')
+        fr = [f'<draw:frame {at(bi)} svg:width="5cm" svg:height="1cm">{odf_table(b, bp(bi, b))}</draw:frame>' for bi, b in enumerate(doc) if is_table(b)]
+        if empty_frame:
+            fr.insert(1 if len(fr) > 1 else 0, "<draw:frame/>")
+        return "".join(fr)
     frames = "".join(f'<draw:frame svg:x="1cm" svg:y="{bi}cm" svg:width="5cm" svg:height="1cm">{odf_table(b, bp(bi, b))}</draw:frame>' if is_table(b)
                      else f'<draw:frame><draw:text-box><text:p>{tok(f"b{bi}")}</text:p></draw:text-box></draw:frame>' for bi, b in enumerate(doc))
     return frames
@@ -223,6 +229,9 @@ def html_text(doc):
         return f"<p>{par_text(it, ip)}</p>"
 
     def table(t, path):
+        if t.get("wrap"):           # the table sits inside non-table elements (<font><center>..., <div>...)
+            inner = table({k: v for k, v in t.items() if k != "wrap"}, path)
+            return "".join(f"<{w}>" for w in t["wrap"]) + inner + "".join(f"</{w}>" for w in reversed(t["wrap"]))
         out = "<table>"
         for ri, r in enumerate(t["rows"]):
             if t["hdr"] and ri == 0:
@@ -563,6 +572,10 @@ def dims_ok(tables, dims):
 
 def run_shape(fname, shape):
     fmt, build, exp = FORMATS[fname]
+    if fmt == "odp" and isinstance(shape, dict) and "positions" in shape:      # frames without / with ascending / with equal positions
+        body = f'<office:presentation><draw:page draw:name="page1">{odp_bytes_frames(shape["doc"], shape["positions"], shape.get("empty_frame", False))}</draw:page></office:presentation>'
+        got, dims = read_tables("odp", odf_zip("application/vnd.oasis.opendocument.presentation", body))
+        return got, expected(shape["doc"], nl_rule), dims
     if isinstance(shape, dict) and "units" in shape and fmt in ("pptx", "odp", "epub"):
         # several slides / pages / chapters, each with its own tables (texts repeat across units: identical tables on different units)
         us = shape["units"]
@@ -607,10 +620,8 @@ def replay_shape(obligation, shape):
         return bad, detail, got, want
     try:
         got, want, dims = run_shape(fname, shape)
-    except Exception as e:  # noqa
-        if "no-exception" in clause:
-            return True, f"{type(e).__name__}: {e}", None, None
-        raise
+    except Exception as e:  # noqa  (the public reader failed: every table of the document is lost, whatever the clause)
+        return True, f"the reader raised {type(e).__name__}: {e}"[:300], None, None
     if "no-exception" in clause:
         return False, "no exception natively", got, want
     bad, detail = clause_fails(clause, got, want)
@@ -677,7 +688,8 @@ def search_xls_values(branch):
 
 def search_xlsx_values():
     from sharepoint2text.parsing.extractors.ms_modern.xlsx_extractor import _get_cell_value
-    for v in (None, "a", 3, 2.5, True, False, datetime.timedelta(hours=1), "#DIV/0!", SAMPLE_DT, SAMPLE_DT.date(), SAMPLE_DT.time()):
+    for v in (None, "a", 3, 2.5, True, False, datetime.timedelta(hours=1), "#DIV/0!", SAMPLE_DT, SAMPLE_DT.date(), SAMPLE_DT.time(),
+              0.30000000000000004, 1 / 3, 1234567.123456789, -2.5e-17, 1e22, 0.1 + 0.7, 2 ** 53 + 2.0, -0.0, 10 ** 20, -7, ""):
         want = v.isoformat() if isinstance(v, (datetime.datetime, datetime.date, datetime.time)) else v
         r = _get_cell_value(v)
         if isinstance(v, datetime.timedelta) and r == str(v):
@@ -702,10 +714,14 @@ def search_shapes(obligation, skip_known=False):
                       [T([[P, P]]), dict(T([[P, P]]), like="b0")], [T([[P]]), dict(T([[P]]), like="b0"), dict(T([[P]]), like="b0")]]
             if fname not in ("html_extractor.py",):
                 shapes.append([T([[["p", "p"], P]])])
+            if fname in ("html_extractor.py", "epub_extractor.py"):
+                shapes += [[dict(T([[P, P]]), wrap=w), T([[P]])] for w in (["div"], ["font", "center"], ["a", "span"], ["b", "i"])]
             if fname == "pptx_extractor.py":
                 shapes = [[b for b in s_ if is_table(b)] for s_ in shapes if not any(is_table(b) and b["hdr"] for b in s_)]
             if fname == "odp_extractor.py":
                 shapes = [s_ for s_ in shapes if len([b for b in s_ if is_table(b)]) >= 1 and not any("like" in b for b in s_ if is_table(b))]
+            if fname == "odp_extractor.py":
+                shapes += [{"doc": [T([[P]]), T([[P, P]])], "positions": "equal"}, {"doc": [T([[P]]), T([[P, P]])], "positions": "none"}]
             if fname in ("pptx_extractor.py", "odp_extractor.py", "epub_extractor.py"):
                 shapes += [{"units": [[T([[P, P]])], [T([[P]])]]}, {"units": [[T([[P]])], [T([[P]])], [T([[P], [P]])]]}]
         for sh in shapes:
@@ -723,6 +739,7 @@ def search_shapes(obligation, skip_known=False):
                   [T([[[inner]]])], [T([[["p", inner]], [P]])], [T([[P], [P]], 1)], [T([[P, P]]), dict(T([[P, P]]), like="b0")]]
         if fname in ("html_extractor.py", "epub_extractor.py"):
             shapes.append([T([[["s"]]])])
+            shapes += [[dict(T([[P, P]]), wrap=w)] for w in (["div"], ["font", "center"], ["a", "span"], ["b", "i"], ["center"])]
             shapes += [[T([[["/"], P]])], [T([[P, ["/"]], [["/"], P]], 1)], [T([[["/"]]])]]
         if fname == "pptx_extractor.py":
             shapes = [s for s in shapes if len(s) == 1 and not any(is_table(i) for r in s[0]["rows"] for c in r for i in c) and not s[0]["hdr"]]
